@@ -90,6 +90,7 @@ pub fn alphabet(ver: Ver, role: Role) -> Vec<T> {
         q(1, 1),
         q(2, 0),
         T::PubSplit { qos: 1, id: 0, len: 6 },
+        T::PubSplit3 { qos: 1, id: 0, len: 8 },
         T::PubPartial { qos: 1, id: 0, len: 6 },
         T::PubRel(1),
         T::PubRel(9),
@@ -128,7 +129,7 @@ pub fn configs(tier: Tier) -> Vec<InCfg> {
         // application states: idle / outstanding sends / two gated handlers / instead of the handshake / streaming an outbound publish
         // (clients also: a lone SUBSCRIBE / a lone UNSUBSCRIBE outstanding, so that every ack type of the
         // alphabet meets a request that is at the head of the in-flight queue)
-        for state in 0..7 {
+        for state in 0..8 {
             let mut ep = EpCfg::new(ver, role);
             ep.handler_auto = state != 2;
             ep.proto_auto = true;
@@ -149,8 +150,21 @@ pub fn configs(tier: Tier) -> Vec<InCfg> {
                 vec![]
             };
             let prologue = if state == 2 { vec![T::Pub { qos: 1, id: 7, len: 1, topic: 0, alias: 0 }, T::Pub { qos: 2, id: 8, len: 1, topic: 0, alias: 0 }] } else { vec![] };
-            if (state == 3 && role == Role::Client) || (state >= 5 && role == Role::Server) {
+            if (state == 3 && role == Role::Client) || ((state == 5 || state == 6) && role == Role::Server) || (state == 7 && role == Role::Client) {
                 continue;
+            }
+            if state == 2 || state == 7 {
+                // payload pieces of a publish delivered in several writes reach the dispatcher as separate chunk items
+                ep.min_chunk_size = 4;
+            }
+            if state == 7 {
+                // servers: the receive window is full as soon as one publish is being handled (count 1, 10 bytes):
+                // the remaining pieces of a publish delivered in two writes must get past the limiter
+                ep.max_receive = 1;
+                ep.max_receive_size = 10;
+                if ver == Ver::V5 {
+                    ep.hs_receive_max = Some(1);
+                }
             }
             // clients: idle and gated-handler states also with the topic router in front of the handler
             if role == Role::Client && (state == 0 || state == 2) {
@@ -199,7 +213,7 @@ pub fn run(tier: Tier) -> i32 {
         ck.explore::<In>("inbound", i, c, &ecfg);
     }
     ck.rule = format!(
-        "per role and version: every sequence of up to {} well-formed packets over an alphabet of 26-30 templates (every packet type incl. those illegal in that direction, ids in use / free / unknown, PUBLISH complete / split / left incomplete / duplicate id / retain / wildcard topic / alias, second CONNECT, every ack type) against 5 (clients 6) application states (idle; outstanding QoS1+QoS2(+SUBSCRIBE) sends; two gated publish handlers; instead of the handshake (servers); an outbound publish being streamed; clients: a lone SUBSCRIBE, a lone UNSUBSCRIBE outstanding; clients idle / with gated handlers also behind the topic router), handler completions interleaved; oracle: no panic, poll horizon never hit, at most one Stop, Stop reason is a protocol error unless a DISCONNECT (or client-side unknown PUBREL) is in the sequence, and a connection without Stop still answers a probe packet after the drain",
+        "per role and version: every sequence of up to {} well-formed packets over an alphabet of 27-31 templates (every packet type incl. those illegal in that direction, ids in use / free / unknown, PUBLISH complete / split in two or three writes / left incomplete / duplicate id / retain / wildcard topic / alias, second CONNECT, every ack type) against 5 (clients 6) application states (idle; outstanding QoS1+QoS2(+SUBSCRIBE) sends; two gated publish handlers; instead of the handshake (servers); an outbound publish being streamed; clients: a lone SUBSCRIBE, a lone UNSUBSCRIBE outstanding; clients idle / with gated handlers also behind the topic router; servers with max_receive 1 and a 10-byte max_receive_size), handler completions interleaved; oracle: no panic, poll horizon never hit, at most one Stop, Stop reason is a protocol error unless a DISCONNECT (or client-side unknown PUBREL) is in the sequence, and a connection without Stop still answers a probe packet after the drain",
         if tier == Tier::Quick { 3 } else { 4 }
     );
     ck.assumptions = vec!["FIFO task order of ntex-rt; nondeterminism = timing of environment events (DESIGN 2.4)".into()];
